@@ -1,12 +1,12 @@
-SPECIFICATION Spec
+SPECIFICATION LSpec
 CONSTANTS
   PosPeriod = 1
   NegPeriod = 0
   MaxClock = 0
-  MaxCalls = 3
+  MaxCalls = 4
   AllowRChoices = {{}}
   AllowSChoices = {{"R"}}
-  RecogAInit = {TRUE}
+  RecogAInit = {FALSE}
   ChainPeers = {"A"}
   MaxChain = 0
   MaxErr = 0
@@ -14,24 +14,25 @@ CONSTANTS
   Nonces = {1}
   HsBudget = 0
   MaxDials = 1
-  MaxAdvDials = 1
+  MaxAdvDials = 0
   MaxDrops = 0
   Handlers = {"h1"}
   CancelHandlers = {}
-  MaxSend = 1
-  MaxRetx = 2
+  MaxSend = 2
+  MaxRetx = 3
   Cap = 1
   SecondCheck = TRUE
   Filter = TRUE
-  MaxTicks = 0
+  MaxTicks = 1
   Backoff1 = FALSE
   Backoff2 = TRUE
   CancelMsgs = {}
-  MaxAdv = 1
-  AdvKinds = {"own"}
+  MaxAdv = 0
+  AdvKinds = {"own", "impostor"}
   FwInbound = TRUE
   VerifyAct1 = TRUE
   MatchInner = TRUE
   StrictSign = TRUE
   Reduce = TRUE
-INVARIANTS TypeOK PerNodeAdmission
+INVARIANTS TypeOK
+PROPERTIES EndToEnd
